@@ -277,7 +277,13 @@ class BaseOutlineCompiler:
 
         reverseContour = sfntVersion == "\000\001\000\000"
         if notdefGlyph is not None:
-            notdefGlyph = _copyGlyph(notdefGlyph, reverseContour=reverseContour)
+            # the copy is the font's '.notdef', whatever the given glyph is called
+            newGlyph = _getNewGlyphFactory(notdefGlyph)
+            notdefGlyph = _copyGlyph(
+                notdefGlyph,
+                glyphFactory=lambda name, **kwargs: newGlyph(".notdef", **kwargs),
+                reverseContour=reverseContour,
+            )
         else:
             unitsPerEm = otRound(getAttrWithFallback(font.info, "unitsPerEm"))
             ascender = otRound(getAttrWithFallback(font.info, "ascender"))
